@@ -71,7 +71,12 @@ CircVerdict(e) ==
 PointVerdict(e) ==
   LET i == e.inst
       pt == [kind |-> i.pt.kind, src |-> SrcOf(i.scene[1]), obs |-> V3(i.pt.obs), field |-> i.pt.field, rho |-> i.pt.rho]
-  IN IF Len(i.scene) # 1 \/ ~PointPremise(pt) THEN <<"machinery", "Premise">>
+  IN IF pt.kind = "harmonic" THEN
+       (IF Len(i.scene) # 1 \/ ~HarmPremise(pt) THEN <<"machinery", "Premise">>
+        ELSE IF Len(e.obs7.q) # 7 \/ \E j \in 1..7 : \E k \in 1..3 : ~e.obs7.fin[j][k] THEN <<e.prop, "FiniteField">>
+        ELSE IF \A k \in 1..3 : Abs(HarmResidual(e.obs7.q, k)) <= HarmTol8(pt) THEN <<"ok", "ok">>
+        ELSE <<e.prop, "MeanValue">>)
+     ELSE IF Len(i.scene) # 1 \/ ~PointPremise(pt) THEN <<"machinery", "Premise">>
      ELSE IF Seqify(e.der.norm) # PointNorm(pt) \/ e.der.gross # PointGross(pt) THEN <<"machinery", "Norm">>
      ELSE IF \E k \in 1..3 : ~e.obs.fin[k] THEN <<e.prop, "FiniteField">>
      ELSE LET N == PointExpected(pt)
